@@ -129,3 +129,25 @@ def custom_replay(prop, part, r, path):
 def custom_known(prop, part, k):
     raise NotImplementedError
 NOT_YET = {}
+
+
+def rc(harness, part, variant="rc", **kw):
+    d = dict(harness=harness, variant=variant, part=part)
+    d.update(kw)
+    return d
+
+
+RC_NOTE = "rapidcheck generates and shrinks the cases (16 independent runs with derived seeds); the oracle is a plain function so a shrunk failure replays without the library. Pure sequential code: no schedule dimension."
+CHECKS.update({
+    "C17": dict(title="Static chunking arithmetic partitions ranges exactly", level="exploration",
+                technique="rapidcheck PBT over (items, chunks, granularity) and (index type, start, size, threads, granularity) with an arithmetic oracle computed in 128-bit integers; exhaustive enumeration of the small box",
+                text="staticChunkSize / staticChunkSizeGranular over edge-biased (items up to 2^61, chunks up to 2^61 and around items, granularity up to 2^20): transition index in [0,chunks], sizes sum to items, larger first, differ by one unit, ceil minimal; StaticChunkMapper<T> for all eight index types constructed exactly as parallel_for does: boundaries contiguous from start to end, non-increasing sizes, granular; plus the complete box units<=300 x chunks<=64 x g<=8. (for_each's offset arithmetic is exercised end-to-end by C15.)",
+                note=RC_NOTE + " Inputs respect the stated precondition (no ssize_t overflow: items + 2*chunks < 2^63; items a multiple of granularity).",
+                design_ref="§4 C17", parts=[rc("arith", "chunk"), rc("arith", "mapper"), rc("arith", "box")], exhaustive=False,
+                assumptions=["128-bit reference arithmetic of the harness", "inputs within the property's stated domain (no ssize_t overflow)"]),
+    "C44": dict(title="Bit-math helpers are correct for all inputs", level="exploration",
+                technique="rapidcheck PBT with definitional reference implementations (loops) + enumeration of all 32-bit inputs (thorough tier exhaustive, quick tier stratified 2^24) + alignment oracle for alignedMalloc",
+                text="nextPow2 (v <= 2^63), log2 / log2const (64- and 32-bit overloads, v != 0), countTrailingZeros (v != 0), countSetBits, alignToCacheLine against loop-based reference definitions over edge-biased 64-bit values (random, shifted, 2^k+{-1,0,1}, two-bit patterns); every 32-bit value in the thorough tier (4096 blocks of 2^20), a 16.7M-value stratified sweep in the quick tier; alignedMalloc(bytes, 2^a) for a in 0..16: address multiple of the alignment, memory writable, freed by alignedFree.",
+                note=RC_NOTE, design_ref="§4 C44", parts=[rc("arith", "bits"), rc("arith", "all32"), rc("arith", "amalloc")],
+                assumptions=["reference implementations are the mathematical definitions written as loops"]),
+})
